@@ -103,14 +103,18 @@ def Store.delNode (s : Store) (g : String) (i : String) : Store :=
   | some x => s.delKey x.key
   | none => s
 
+/-- the end of `e` (an edge at `v`) that is not `v`, as `nx.contracted_nodes(G, u, v)` re-attaches it (a self-loop of `v`
+becomes one of `u`) -/
+def otherEnd (u v : Nat) (e : SEdge) : Nat :=
+  let z := if e.ka == v then e.kb else e.ka
+  if z == v then u else z
+
 /-- edges `nx.contracted_nodes(G, u, v)` adds at `u`: one for every edge of `v` whose other end `u` is not joined to yet -/
 def contractAdd (u v : Nat) (rest : List SEdge) : List SEdge → List SEdge → List SEdge
   | acc, [] => acc
   | acc, e :: es =>
-    let z := if e.ka == v then e.kb else e.ka
-    let z := if z == v then u else z
-    if (rest ++ acc).any (fun f => f.joinsK u z) then contractAdd u v rest acc es
-    else contractAdd u v rest (acc ++ [⟨u, z, e.props⟩]) es
+    if (rest ++ acc).any (fun f => f.joinsK u (otherEnd u v e)) then contractAdd u v rest acc es
+    else contractAdd u v rest (acc ++ [⟨u, otherEnd u v e, e.props⟩]) es
 
 /-- `merge_nodes(node_id, other_graph)` with the default policy: the node of `g` keeps its properties, the edges of the
 other graph's node move over (an edge that already exists keeps its data), the other node goes -/
@@ -266,6 +270,45 @@ def execR (e : Env) : Store → List RStep → Option Err × Store
       match s.rehome (e.get g) (e.get to) with
       | .error x => (some x, s)
       | .ok s' => execR e s' rest
+
+/-! ## a broker on the shared store -/
+
+/-- graph ids: the combined model, the temporary graphs of successive merges (uuids in the code), the snapshots -/
+structure Names where
+  cbm : String
+  tmp : Nat → String
+  snap : Nat → String
+
+structure SWorld where
+  s : Store
+  next : Nat          -- index of the next snapshot
+  tmp : Nat           -- number of merges so far
+deriving Repr, Inhabited
+
+inductive SOp where
+  | merge (adm : String) (order : List String)   -- merge the graph with this id (it lies in the store)
+  | unmerge (gid : String)
+  | snapshot
+  | rollback (k : Nat)
+deriving Repr, Inhabited
+
+def sstep (P : Plans) (N : Names) (w : SWorld) : SOp → Option Err × SWorld
+  | .merge adm order =>
+    let r := w.s.mergeAdm P ⟨N.cbm, N.tmp w.tmp, adm⟩ order
+    (r.1, { w with s := r.2, tmp := w.tmp + 1 })
+  | .unmerge gid =>
+    let r := w.s.unmergeAdm P N.cbm gid
+    (r.1, { w with s := r.2 })
+  | .snapshot =>
+    let r := execM ⟨N.cbm, N.snap w.next, N.cbm⟩ [] w.s P.snapshot
+    (r.1, { w with s := r.2, next := if r.1.isNone then w.next + 1 else w.next })
+  | .rollback k =>
+    let r := execR ⟨N.cbm, N.snap k, N.cbm⟩ w.s P.rollback
+    (r.1, { w with s := r.2 })
+
+def srun (P : Plans) (N : Names) (w : SWorld) : List SOp → SWorld
+  | [] => w
+  | op :: ops => srun P N (sstep P N w op).2 ops
 
 /-- the plans the abstract model (`mergeOrd`, `unmerge`, `snapshot`, `rollback` of Model/Cbm.lean) mirrors -/
 def modelPlans : Plans :=
